@@ -390,14 +390,47 @@ def reindexLeafM (ix : Index) (ms : List Method) (lim : Option Nat) : Leaf → R
     | .none => .ok (.arr xs)
   | .other v => .ok (.other v)
 
+/-! `_df_reindex` is decorated `@loop(list, tuple, dict)`, and `loops._wrapped` (`_loop.py:206-240`, `_item_by_i`) hands a
+list- or tuple-valued KEYWORD argument of the same length as a list / tuple container out member by member
+(`f([1,2,3], [4,5,6]) == [5,7,9]`).  So a method LIST `['ffill', 'bfill']` applied to a list of TWO timeseries gives the first
+`'ffill'` and the second `'bfill'` instead of both the sequence; a dict container, a container of another length and a bare
+method (a word, a number) are not affected.  `bare = true`: the method is a single word / number (never split). -/
+mutual
+  def Tree.mapMS (g : List Method → Leaf → Res Leaf) (bare : Bool) (ms : List Method) : Tree → Res Tree
+    | .leaf l => (g ms l).map .leaf
+    | .node tag kids =>
+      if tag != .dict && !bare && ms.length == kids.length then (zipKidsMS g ms kids).map (.node tag)
+      else (mapKidsMS g bare ms kids).map (.node tag)
+  def mapKidsMS (g : List Method → Leaf → Res Leaf) (bare : Bool) (ms : List Method) :
+      List (String × Tree) → Res (List (String × Tree))
+    | [] => .ok []
+    | (k, t) :: r =>
+      match t.mapMS g bare ms with
+      | .error e => .error e
+      | .ok t' =>
+        match mapKidsMS g bare ms r with
+        | .error e => .error e
+        | .ok r' => .ok ((k, t') :: r')
+  /-- member `i` gets method `i`, as a bare method -/
+  def zipKidsMS (g : List Method → Leaf → Res Leaf) : List Method → List (String × Tree) → Res (List (String × Tree))
+    | m :: ms, (k, t) :: r =>
+      match t.mapMS g true [m] with
+      | .error e => .error e
+      | .ok t' =>
+        match zipKidsMS g ms r with
+        | .error e => .error e
+        | .ok r' => .ok ((k, t') :: r')
+    | _, _ => .ok []
+end
+
 /-- `df_reindex(ts, index, method, limit)` with the index already determined -/
-def reindexTreeM (ix : Index) (ms : List Method) (lim : Option Nat) (t : Tree) : Res Tree :=
+def reindexTreeM (ix : Index) (bare : Bool) (ms : List Method) (lim : Option Nat) (t : Tree) : Res Tree :=
   match ix with
   | .none => .ok t
-  | _ => t.mapM (reindexLeafM ix ms lim)
+  | _ => t.mapMS (fun ms' => reindexLeafM ix ms' lim) bare ms
 
 /-- `df_sync(dfs, join, method, columns)` with any method (list); `df_sync` has no `limit` (line 836 passes none on) -/
-def syncJM (j : Join) (ms : List Method) (colHow : Option How) (t : Tree) : Res Tree :=
+def syncJM (j : Join) (bare : Bool) (ms : List Method) (colHow : Option How) (t : Tree) : Res Tree :=
   match t with
   | .leaf _ => .ok t
   | .node _ _ =>
@@ -405,7 +438,7 @@ def syncJM (j : Join) (ms : List Method) (colHow : Option How) (t : Tree) : Res 
     match dfIndexJ j listed with
     | .error e => .error e
     | .ok ix =>
-      match reindexTreeM ix ms Option.none t with
+      match reindexTreeM ix bare ms Option.none t with
       | .error e => .error e
       | .ok t' =>
         match colHow with
@@ -413,31 +446,44 @@ def syncJM (j : Join) (ms : List Method) (colHow : Option How) (t : Tree) : Res 
         | some ch => t'.mapM (recolumnLeaf (joinCols ch (multiCols listed)))
 
 /-- both halves of a `presync` call reindexed onto one index (lines 1030-1031) -/
-def presyncOnto (ix : Index) (ms : List Method) (args kwargs : List (String × Tree)) : Res (Tree × Tree) :=
-  match reindexTreeM ix ms Option.none (.node .tuple args) with
+def presyncOnto (ix : Index) (bare : Bool) (ms : List Method) (args kwargs : List (String × Tree)) : Res (Tree × Tree) :=
+  match reindexTreeM ix bare ms Option.none (.node .tuple args) with
   | .error e => .error e
   | .ok a =>
-    match reindexTreeM ix ms Option.none (.node .dict kwargs) with
+    match reindexTreeM ix bare ms Option.none (.node .dict kwargs) with
     | .error e => .error e
     | .ok k => .ok (a, k)
 
 /-- `presync(f)(*args, **kwargs)` with `columns=False`, `join` a policy word or an explicit index, any method (list) -/
-def presyncCallM (j : Join) (ms : List Method) (args kwargs : List (String × Tree)) : Res (Tree × Tree) :=
+def presyncCallM (j : Join) (bare : Bool) (ms : List Method) (args kwargs : List (String × Tree)) : Res (Tree × Tree) :=
   match dfIndexJ j (flatKids (args ++ kwargs)) with
   | .error e => .error e
-  | .ok ix => presyncOnto ix ms args kwargs
+  | .ok ix => presyncOnto ix bare ms args kwargs
 
-/-- `_index(value)`, lines 80-94, for the value of ONE argument: a timeseries gives its index, an array its length, a dict
-with the key 'index' that entry (a timeseries there denotes its index, `df_reindex` line 498-499); anything else raises
-`ValueError('did not provide an index')`.  Lists / tuples / dicts without 'index' give a list / dict of indexes that no
-`reindex` accepts (`err Other`; not generated). -/
+/-- a `pd.Index` object met as a MEMBER (not as the join policy) is no timeseries: it passes through like any other object
+(`Leaf.other`).  It is represented by the value `{"pd.Index": [t, ...]}` so that `_index` can read its labels. -/
+def asPdIndex : Val → Option (List Int)
+  | .dict [("pd.Index", .list xs)] => xs.mapM fun x => match x with | .cell (.dt t) => some t | _ => Option.none
+  | _ => Option.none
+
+/-- `_index(value)`, lines 80-94, for the value of ONE argument: a timeseries gives its index, a `pd.Index` itself, an array
+its length, a dict with the key 'index' that entry (a timeseries there denotes its index, `df_reindex` line 498-499); anything
+else raises `ValueError('did not provide an index')`.  Lists / tuples / dicts without 'index' give a list / dict of indexes
+that no `reindex` accepts (`err Other`; not generated). -/
 def indexOfArg : Tree → Res Index
   | .leaf (.ts _ f) => .ok (.times f.idx)
   | .leaf (.arr xs) => .ok (.len xs.length)
-  | .leaf (.other _) => .error .value
+  | .leaf (.other v) =>
+    match asPdIndex v with
+    | some ix => .ok (.times ix)
+    | Option.none => .error .value
   | .node .dict kids =>
     match kids.find? (·.1 == "index") with
     | some (_, .leaf (.ts _ f)) => .ok (.times f.idx)
+    | some (_, .leaf (.other v)) =>
+      match asPdIndex v with
+      | some ix => .ok (.times ix)
+      | Option.none => .error .other
     | _ => .error .other
   | .node _ _ => .error .other
 
@@ -445,13 +491,13 @@ def indexOfArg : Tree → Res Index
 `_index(callargs[join])`, the index of that argument, whatever the other arguments hold.  `pnames` = the names of the
 parameters the positional arguments bind to (`inspect.getcallargs`); `none` = `join` names no supplied argument (then
 `presyncCallM` applies). -/
-def presyncNamed (name : String) (ms : List Method) (pnames : List String) (args kwargs : List (String × Tree)) :
+def presyncNamed (name : String) (bare : Bool) (ms : List Method) (pnames : List String) (args kwargs : List (String × Tree)) :
     Option (Res (Tree × Tree)) :=
   match ((pnames.zip (args.map (·.2))) ++ kwargs).find? (·.1 == name) with
   | Option.none => Option.none
   | some (_, v) =>
     some (match indexOfArg v with
           | .error e => .error e
-          | .ok ix => presyncOnto ix ms args kwargs)
+          | .ok ix => presyncOnto ix bare ms args kwargs)
 
 end Pyg.Align
